@@ -3,7 +3,9 @@
    the proofs in Proofs.v.
 
    Every theorem quantifies over: the type of file contents and the digest
-   function (assumed injective: MD5 does not collide on the contents met), the
+   function (assumed injective on the finitely many contents the run meets --
+   [contents_met]: those of the disk before the update, of the payload, of a
+   freshly created file and what a failing write leaves behind), the
    two external verdicts (dry-run validation, metrics reload) as arbitrary
    functions of the disk, the content of a new file and what a failing write
    leaves behind, the handler, the whole request (method, body, payload:
@@ -11,12 +13,27 @@
    the fault oracle (no fault, any primitive step, any hook-bearing step) and
    the order hints (any order in which Go iterates over its maps).
    Transactions arrive at every primitive step: [arrivals] lists the engine
-   met at each of them and the final one.
+   met at each of them and the final one; [timeline] lists them in
+   chronological order together with the number of engine publications
+   (rd.setStream) so far; [transactions] lists every (request-phase arrival,
+   response-phase arrival) of a transaction that is proxied to the upstream.
+
+   Three clauses of the property do not hold in full for the gateway as it
+   is; each has its full statement as a Definition, a [_refuted] theorem with
+   a concrete witness, and a [_holds_outside_...] theorem whose side condition
+   is decidable and is what the monitor's classifier computes (open findings
+   F-C08g, F-C08h, F-C08i in known_findings.d/C08.json).
 
    [run] below is the gateway as it is (with the file-name check of
-   fix-F-C08e); [run_unchecked] is the same code without that check. *)
+   fix-F-C08e and Restore removing strays first, fix-F-C08j); [run_unchecked]
+   is the same code without the name check.  The tree structure of the paths
+   ([under p q]: q lies below p taken as a directory) is one more universally
+   quantified input: a payload name may make a file of a directory or a
+   directory of a file, os.MkdirAll / os.Create then fail in the model as
+   they do on a disk. *)
 From Coq Require Import List NArith Bool Arith.
-From Verif Require Import C08.Model C08.Proofs.
+From Coq Require Import Lia.
+From Verif Require Import C08.Model C08.Proofs C08.Spans.
 Import ListNotations.
 
 (* an engine built from a disk that holds configuration [d] in all the places
@@ -24,29 +41,39 @@ Import ListNotations.
 Definition built_from {B} (d : disk B) (e : engine B) : Prop :=
   exists cfg, e = EBuilt cfg /\ forall p, covered p = true -> lookup p cfg = lookup p d.
 
+(* both phases of a transaction are handled by the old configuration, or both
+   by the new one *)
+Definition handled_entirely_by_one {B} (d new : disk B) (a b : engine B) : Prop :=
+  (built_from d a /\ built_from d b) \/ (built_from new a /\ built_from new b).
+
 Section Statements.
   Variables B D : Type.
   Variable digest : B -> D.
   Variable D_eqb : D -> D -> bool.
   Variables empty garbage : B.
+  Variable under : path -> path -> bool.
   Variables valid metrics_ok : disk B -> bool.
   Hypothesis D_eqb_spec : forall a b, D_eqb a b = true <-> a = b.
-  Hypothesis digest_injective : forall a b, digest a = digest b -> a = b.
 
-  Notation run := (run B D digest D_eqb empty garbage valid metrics_ok true).
-  Notation run_unchecked := (Model.run B D digest D_eqb empty garbage valid metrics_ok false).
-  Notation master := (run_master digest D_eqb empty garbage valid metrics_ok D_eqb_spec digest_injective).
+  (* MD5 does not collide among the contents this run meets *)
+  Definition digest_injective_on_contents_met (rq : request B) (d : disk B) : Prop :=
+    injective_on digest (contents_met empty garbage rq d).
+
+  Notation run := (run B D digest D_eqb empty garbage under valid metrics_ok true true).
+  Notation run_unchecked := (Model.run B D digest D_eqb empty garbage under valid metrics_ok false true).
+  Notation master := (run_master_contents digest D_eqb empty garbage under valid metrics_ok).
 
   (* Disk atomicity.  A rejected or failed update leaves every file as it was,
      byte for byte (extensional equality of the path -> content map over ALL
      paths, the places outside the configuration directories included),
      whatever the payload names its files. *)
   Theorem C08_disk_atomic : forall hs hint rq d f s',
+    digest_injective_on_contents_met rq d ->
     run hs hint rq d f = (Failed, s') ->
     forall p, lookup p (dsk s') = lookup p d.
   Proof.
-    intros hs hint rq d f s' R p.
-    destruct (master _ _ _ _ _ _ _ _ R) as (k & _ & HF & HU & _).
+    intros hs hint rq d f s' Inj R p.
+    destruct (master _ _ _ _ _ _ _ _ D_eqb_spec Inj R) as (k & _ & HF & HU & _).
     destruct (covered p) eqn:C; [apply (proj1 (HF eq_refl)); exact C|apply HU; auto].
   Qed.
 
@@ -54,11 +81,12 @@ Section Statements.
      never applied: the update ends in [Failed] (to which C08_disk_atomic
      applies) or, after a second independent failure, in [RollbackFailed]. *)
   Theorem C08_escaping_name_is_never_applied : forall hs hint rq d f r s',
+    digest_injective_on_contents_met rq d ->
     names_escape (r_payload rq) = true ->
     run hs hint rq d f = (r, s') -> r <> Ok.
   Proof.
-    intros hs hint rq d f r s' E R ->.
-    destruct (master _ _ _ _ _ _ _ _ R) as (k & _ & _ & _ & HO & _).
+    intros hs hint rq d f r s' Inj E R ->.
+    destruct (master _ _ _ _ _ _ _ _ D_eqb_spec Inj R) as (k & _ & _ & _ & HO & _).
     destruct (HO eq_refl) as (_ & _ & _ & _ & NE). rewrite E in NE. discriminate.
   Qed.
 
@@ -68,12 +96,13 @@ Section Statements.
      covered place.  C08_disk_atomic_without_name_check_refuted below shows
      that the side condition cannot be dropped there. *)
   Theorem C08_disk_atomic_without_name_check_on_covered_places : forall hs hint rq d f s',
+    digest_injective_on_contents_met rq d ->
     run_unchecked hs hint rq d f = (Failed, s') ->
     forall p, covered p = true \/ targets_covered (r_payload rq) = true ->
               lookup p (dsk s') = lookup p d.
   Proof.
-    intros hs hint rq d f s' R p H.
-    destruct (master _ _ _ _ _ _ _ _ R) as (k & _ & HF & HU & _).
+    intros hs hint rq d f s' Inj R p H.
+    destruct (master _ _ _ _ _ _ _ _ D_eqb_spec Inj R) as (k & _ & HF & HU & _).
     destruct (covered p) eqn:C; [apply (proj1 (HF eq_refl)); exact C|].
     destruct H as [H|H]; [discriminate|]. apply HU; auto.
   Qed.
@@ -86,6 +115,7 @@ Section Statements.
      an engine of the old configuration, after a successful one the new
      configuration is on disk and serving. *)
   Theorem C08_engine_atomic : forall hs hint rq d f r s',
+    digest_injective_on_contents_met rq d ->
     run hs hint rq d f = (r, s') ->
     exists k, let new := new_disk B true (skipn k hs) rq d in
       (r <> RollbackFailed ->
@@ -94,40 +124,165 @@ Section Statements.
       (r = Ok -> built_from new (eng s') /\ (forall p, lookup p (dsk s') = lookup p new) /\
                  valid (dsk s') = true /\ metrics_ok (dsk s') = true).
   Proof.
-    intros hs hint rq d f r s' R.
-    destruct (master _ _ _ _ _ _ _ _ R) as (k & HA & HF & _ & HO & _).
+    intros hs hint rq d f r s' Inj R.
+    destruct (master _ _ _ _ _ _ _ _ D_eqb_spec Inj R) as (k & HA & HF & _ & HO & _).
     exists k. cbn zeta. split; [exact HA|]. split; [intro E; exact (proj2 (HF E))|].
     intro E. destruct (HO E) as (Dq & Ee & V & M & _). split; [|split; [exact Dq|split; assumption]].
     rewrite Ee. exists (dsk s'). split; [reflexivity|]. intros p _. apply Dq.
   Qed.
 
   Corollary C08_no_empty_engine : forall hs hint rq d f r s',
+    digest_injective_on_contents_met rq d ->
     run hs hint rq d f = (r, s') -> r <> RollbackFailed -> ~ In EEmpty (arrivals s').
   Proof.
-    intros hs hint rq d f r s' R Hr Hin.
-    destruct (C08_engine_atomic _ _ _ _ _ _ _ R) as (k & HA & _).
+    intros hs hint rq d f r s' Inj R Hr Hin.
+    destruct (C08_engine_atomic _ _ _ _ _ _ _ Inj R) as (k & HA & _).
     pose proof (proj1 (Forall_forall _ _) (HA Hr) _ Hin) as [(c & E & _)|(c & E & _)]; discriminate.
   Qed.
 
   (* The roll-back can only fail when there were two independent failures: an
      injected fault AND a payload that is bad by itself -- one of its file
-     names leaves its directory, or it does not validate, or its metrics do
-     not load (so that the update had already failed for that reason when the
-     fault hit the roll-back).  With a sound old configuration, one fault --
-     at any step -- or one bad payload alone always ends in [Failed] or [Ok],
-     to which the theorems above apply. *)
+     names leaves its directory, or makes a file of a directory / a directory
+     of a file ([type_conflict]: its target lies below or above a file of the
+     disk or another target of the payload), or it does not validate, or its
+     metrics do not load (so that the update had already failed for that
+     reason when the fault hit the roll-back).  With a sound old configuration
+     on a disk that is a tree, one fault -- at any step -- or one bad payload
+     alone always ends in [Failed] or [Ok], to which the theorems above
+     apply. *)
   Theorem C08_rollback_fails_only_after_two_failures : forall hs hint rq d f s',
+    digest_injective_on_contents_met rq d ->
     (forall a b, (forall p, covered p = true -> lookup p a = lookup p b) -> valid a = valid b) ->
     (forall a b, (forall p, covered p = true -> lookup p a = lookup p b) -> metrics_ok a = metrics_ok b) ->
     valid d = true -> metrics_ok d = true ->
+    tree under d ->
     run hs hint rq d f = (RollbackFailed, s') ->
     f <> NoFault /\
     exists k, let new := new_disk B true (skipn k hs) rq d in
-              names_escape (r_payload rq) = true \/ valid new = false \/ metrics_ok new = false.
+              names_escape (r_payload rq) = true \/ type_conflict under (r_payload rq) d = true \/
+              valid new = false \/ metrics_ok new = false.
   Proof.
-    intros hs hint rq d f s' Vx Mx Vd Md R.
-    destruct (master _ _ _ _ _ _ _ _ R) as (k & _ & _ & _ & _ & H2).
-    destruct (H2 eq_refl Vx Mx Vd Md) as [Hf Hn]. split; [exact Hf|exists k; exact Hn].
+    intros hs hint rq d f s' Inj Vx Mx Vd Md T R.
+    destruct (master _ _ _ _ _ _ _ _ D_eqb_spec Inj R) as (k & _ & _ & _ & _ & H2).
+    destruct (H2 eq_refl Vx Mx Vd Md T (or_introl eq_refl)) as [Hf Hn]. split; [exact Hf|exists k; exact Hn].
+  Qed.
+
+  (* ---- the order of the payload files does not matter when they are distinct ----
+     [C08_engine_atomic] says "the new configuration" up to the order in which
+     Go met the files of the payload ([exists k]: where in the hints they
+     start).  When no two payload files resolve to the same place (decidable;
+     true of every payload whose names are distinct after cleaning) the new
+     configuration is one function of the payload and the disk. *)
+  Lemma built_from_ext (a b : disk B) e :
+    (forall p, lookup p a = lookup p b) -> built_from a e -> built_from b e.
+  Proof. intros E (cfg & -> & H). exists cfg. split; [reflexivity|]. intros p C. rewrite H by exact C. apply E. Qed.
+
+  Theorem C08_engine_atomic_distinct_targets : forall hs hint rq d f r s',
+    digest_injective_on_contents_met rq d ->
+    NoDup (map target (r_payload rq)) ->
+    run hs hint rq d f = (r, s') ->
+    let new := new_disk B true [] rq d in
+      (r <> RollbackFailed ->
+       Forall (fun e => built_from d e \/ built_from new e) (arrivals s')) /\
+      (r = Failed -> built_from d (eng s')) /\
+      (r = Ok -> built_from new (eng s') /\ (forall p, lookup p (dsk s') = lookup p new) /\
+                 valid (dsk s') = true /\ metrics_ok (dsk s') = true).
+  Proof.
+    intros hs hint rq d f r s' Inj ND R. cbn zeta.
+    destruct (C08_engine_atomic _ _ _ _ _ _ _ Inj R) as (k & HA & HF & HO). cbn zeta in *.
+    pose proof (new_disk_order_irrelevant true (skipn k hs) [] rq d ND) as E.
+    split; [|split; [exact HF|]].
+    - intro Hr. eapply Forall_impl; [|exact (HA Hr)]. cbn. intros e [H|H]; [left; exact H|right].
+      eapply built_from_ext; [exact E|exact H].
+    - intro Hr. destruct (HO Hr) as (H1 & H2 & H3 & H4). split; [eapply built_from_ext; [exact E|exact H1]|].
+      split; [intro p; rewrite H2; apply E|split; assumption].
+  Qed.
+
+  (* ---- clause 1, first gap: a second failure inside the roll-back (F-C08h) ----
+     [C08_disk_atomic] restated with the side condition in the open: an update
+     that does not succeed leaves the disk untouched unless its roll-back
+     itself failed.  The full statement (no side condition) is refuted below
+     ([C08_disk_atomic_full_refuted]). *)
+  Theorem C08_disk_atomic_holds_outside_failed_rollback : forall hs hint rq d f r s',
+    digest_injective_on_contents_met rq d ->
+    run hs hint rq d f = (r, s') ->
+    r <> Ok -> r <> RollbackFailed ->
+    forall p, lookup p (dsk s') = lookup p d.
+  Proof.
+    intros hs hint rq d f r s' Inj R H1 H2. destruct r; try contradiction.
+    eapply C08_disk_atomic; eassumption.
+  Qed.
+
+  (* ---- clause 1, second gap: a failure after the switch (F-C08i) ----
+     "the running flows keep behaving as before": after a failed update every
+     transaction that arrived before the first publication of an engine
+     (epoch 0) or after the last one (epoch [ep s']) was served by the old
+     configuration.  A failed update publishes at most the new engine and then
+     the one rebuilt by the roll-back; when it published at most once (the
+     failure came before the switch: undecodable, refused name, failed save,
+     failed validation, failed NewStream / Initialize) EVERY transaction was
+     served by the old configuration.  The full statement is refuted below
+     ([C08_flows_as_before_full_refuted]): when the failure comes after the
+     switch the rejected configuration serves traffic until the roll-back. *)
+  Theorem C08_flows_as_before_holds_outside_failure_after_switch : forall hs hint rq d f s',
+    digest_injective_on_contents_met rq d ->
+    run hs hint rq d f = (Failed, s') ->
+    Forall (fun x => fst x = 0 \/ fst x = ep s' -> built_from d (snd x)) (timeline s') /\
+    (ep s' <= 1 -> Forall (built_from d) (arrivals s')).
+  Proof.
+    intros hs hint rq d f s' Inj R.
+    pose proof (coh_run _ _ _ _ _ _ _ _ _ _ _ _ _ _ _ _ R) as C.
+    destruct (C08_engine_atomic _ _ _ _ _ _ _ Inj R) as (k & _ & HF & _).
+    specialize (HF eq_refl).
+    assert (A : forall n e, In (n, e) (timeline s') -> n = 0 \/ n = ep s' -> built_from d e).
+    { intros n e Hin [E|E].
+      - rewrite (coh_epoch_zero d s' n e C Hin E). exists d. split; [reflexivity|auto].
+      - destruct (coh_epoch_bound d s' n e C Hin) as [_ He]. rewrite (He E). exact HF. }
+    split.
+    - apply Forall_forall. intros [n e] Hin. cbn [fst snd]. apply A; exact Hin.
+    - intro Hep. apply Forall_forall. intros e Hin.
+      destruct (coh_arrival_epoch d s' e C Hin) as [n Hn].
+      destruct (coh_epoch_bound d s' n e C Hn) as [Hle _].
+      apply (A n e Hn). lia.
+  Qed.
+
+  (* ---- clause 2b: transactions in flight during the switch (F-C08g) ----
+     A transaction proxied to the upstream has a request phase and a response
+     phase; [transactions s'] lists every pair (request-phase arrival,
+     response-phase arrival), each tagged with the number of engine
+     publications so far.  Always: the response phase is not earlier than the
+     request phase, and each phase on its own is handled by a complete
+     configuration, the old or the new one.  When no engine was published
+     between the two phases (equal tags -- decidable, and what the monitor
+     reads off the engine.published events) both phases meet the same engine,
+     so the transaction is handled entirely by the old or entirely by the new
+     configuration.  The full statement (every transaction, also those that
+     straddle a publication) is refuted below ([C08_in_flight_full_refuted]). *)
+  Theorem C08_in_flight_holds_outside_switch_between_phases : forall hs hint rq d f r s',
+    digest_injective_on_contents_met rq d ->
+    run hs hint rq d f = (r, s') ->
+    exists k, let new := new_disk B true (skipn k hs) rq d in
+      r <> RollbackFailed ->
+      Forall (fun t =>
+                fst (fst t) <= fst (snd t) /\
+                (built_from d (snd (fst t)) \/ built_from new (snd (fst t))) /\
+                (built_from d (snd (snd t)) \/ built_from new (snd (snd t))) /\
+                (fst (fst t) = fst (snd t) ->
+                 snd (fst t) = snd (snd t) /\
+                 handled_entirely_by_one d new (snd (fst t)) (snd (snd t))))
+             (transactions s').
+  Proof.
+    intros hs hint rq d f r s' Inj R.
+    pose proof (coh_run _ _ _ _ _ _ _ _ _ _ _ _ _ _ _ _ R) as C.
+    destruct (C08_engine_atomic _ _ _ _ _ _ _ Inj R) as (k & HA & _).
+    exists k. cbn zeta in *. intro Hr. specialize (HA Hr). rewrite Forall_forall in HA.
+    apply Forall_forall. intros [[n a] [m b]] Hin. cbn [fst snd].
+    destruct (coh_transactions d s' n a m b C Hin) as [Hle He].
+    apply In_spans_In in Hin as [Ha Hb].
+    apply In_timeline in Ha as [Ha _]. apply In_timeline in Hb as [Hb _].
+    split; [exact Hle|]. split; [apply HA; exact Ha|]. split; [apply HA; exact Hb|].
+    intro E. specialize (He E). subst b. split; [reflexivity|].
+    destruct (HA _ Ha) as [H|H]; [left|right]; split; exact H.
   Qed.
 
 End Statements.
@@ -138,15 +293,25 @@ Print Assumptions C08_disk_atomic_without_name_check_on_covered_places.
 Print Assumptions C08_engine_atomic.
 Print Assumptions C08_no_empty_engine.
 Print Assumptions C08_rollback_fails_only_after_two_failures.
+Print Assumptions C08_engine_atomic_distinct_targets.
+Print Assumptions C08_disk_atomic_holds_outside_failed_rollback.
+Print Assumptions C08_flows_as_before_holds_outside_failure_after_switch.
+Print Assumptions C08_in_flight_holds_outside_switch_between_phases.
 
 (* ---------------------------------------------------------------- why the name check is needed
    (defect F-C08e, repaired by patches/C08/fix-F-C08e.patch).  For the code
    WITHOUT the check ([run ... false]) full-strength disk atomicity does not
    hold: a name that leaves the configuration places is written outside the
    snapshot and never rolled back. *)
+(* paths without any tree structure: no name lies below another *)
+Definition flat : path -> path -> bool := fun _ _ => false.
+
+Lemma flat_tree {B} (d : disk B) : tree flat d.
+Proof. intros p q _ _. reflexivity. Qed.
+
 Definition C08_disk_atomic_without_name_check : Prop :=
   forall (valid metrics_ok : disk N -> bool) hs hint rq d f s',
-    run N N (fun c => c) N.eqb 0%N 0%N valid metrics_ok false hs hint rq d f = (Failed, s') ->
+    run N N (fun c => c) N.eqb 0%N 0%N flat valid metrics_ok false true hs hint rq d f = (Failed, s') ->
     forall p, lookup p (dsk s') = lookup p d.
 
 Definition refuting_request : request N :=
@@ -161,7 +326,7 @@ Proof.
   intro H.
   (* content 8 does not validate; nothing else goes wrong *)
   specialize (H (c_valid [8%N]) (fun _ => true) [] [] refuting_request [] NoFault).
-  remember (run N N (fun c => c) N.eqb 0%N 0%N (c_valid [8%N]) (fun _ => true) false [] [] refuting_request [] NoFault)
+  remember (run N N (fun c => c) N.eqb 0%N 0%N flat (c_valid [8%N]) (fun _ => true) false true [] [] refuting_request [] NoFault)
     as x eqn:E.
   vm_compute in E. destruct x as [r s]. injection E as -> ->.
   specialize (H _ eq_refl (AOutside, 1%N)). vm_compute in H. discriminate.
@@ -170,7 +335,7 @@ Print Assumptions C08_disk_atomic_without_name_check_refuted.
 
 (* the same request on the code with the check: refused, nothing written anywhere *)
 Example C08_refuting_request_is_refused_by_the_check :
-  let '(r, s) := run N N (fun c => c) N.eqb 0%N 0%N (c_valid [8%N]) (fun _ => true) true [] [] refuting_request [] NoFault in
+  let '(r, s) := run N N (fun c => c) N.eqb 0%N 0%N flat (c_valid [8%N]) (fun _ => true) true true [] [] refuting_request [] NoFault in
   (result_code r, normalize (dsk s)) = (1%N, []).
 Proof. vm_compute. reflexivity. Qed.
 
@@ -188,13 +353,14 @@ Definition ex_request (h : handler) : request N :=
   {| r_handler := h; r_method_ok := true; r_body_ok := true;
      r_payload := [ex_entry FFlows ex_f1 11; ex_entry FFlows ex_f3 30] |}.
 Definition ex_run (valid : disk N -> bool) (h : handler) (f : fault) : result * st N :=
-  run N N (fun c => c) N.eqb 0 999 valid (c_metrics_ok []) true [] [] (ex_request h) ex_disk f.
+  run N N (fun c => c) N.eqb 0 999 flat valid (c_metrics_ok []) true true [] [] (ex_request h) ex_disk f.
 
-(* the hypotheses of the theorems are met by plain instances *)
+(* the hypotheses of the theorems are met by plain instances: an equality test
+   that decides equality, a digest without collisions among the contents met *)
 Example C08_hypotheses_satisfiable :
   (forall a b : N, N.eqb a b = true <-> a = b) /\
-  (forall a b : N, (fun c : N => c) a = (fun c => c) b -> a = b).
-Proof. split; [exact N.eqb_eq|auto]. Qed.
+  (forall rq d, digest_injective_on_contents_met N N (fun c : N => c) 0 999 rq d).
+Proof. split; [exact N.eqb_eq|]. intros rq d a b _ _ E. exact E. Qed.
 
 (* /apply_flows that changes one file, adds one and removes one: a fault at
    each of its first 22 primitive steps ends in [Failed] with the disk
@@ -221,7 +387,7 @@ Proof. vm_compute. reflexivity. Qed.
 (* a payload whose metrics do not load fails AFTER the switch: transactions
    meet old, then new, then old again; the disk is restored *)
 Example C08_failure_after_the_switch :
-  let '(r, s) := run N N (fun c => c) N.eqb 0 999 (fun _ => true) (c_metrics_ok [66]) true [] []
+  let '(r, s) := run N N (fun c => c) N.eqb 0 999 flat (fun _ => true) (c_metrics_ok [66]) true true [] []
                      {| r_handler := HConfiguration; r_method_ok := true; r_body_ok := true;
                         r_payload := [ex_entry FFlows ex_f1 11; ex_entry FMetrics metrics_file 66] |}
                      ex_disk NoFault in
@@ -244,7 +410,7 @@ Definition ex_escaping (t : path) : request N :=
   {| r_handler := HConfiguration; r_method_ok := true; r_body_ok := true;
      r_payload := [ex_entry FFlows t 71; ex_entry FFlows ex_f1 11; ex_entry FQuotas ex_q1 51] |}.
 Definition ex_run_escaping (fixed : bool) (t : path) (f : fault) : result * st N :=
-  run N N (fun c => c) N.eqb 0 999 (fun _ => true) (c_metrics_ok []) fixed [ex_f1; ex_f1] [] (ex_escaping t) ex_disk_out f.
+  run N N (fun c => c) N.eqb 0 999 flat (fun _ => true) (c_metrics_ok []) fixed true [ex_f1; ex_f1] [] (ex_escaping t) ex_disk_out f.
 
 (* with the check: [Failed] wherever the name points (outside, a sibling
    directory, the gateway file, a new outside file); f1 had been rewritten and
@@ -282,3 +448,247 @@ Example C08_escaping_is_decided_by_the_field :
        ex_entry FGateway ex_out 1; ex_entry FMetrics ex_out 1]
   = [false; true; false; true; true; false; false].
 Proof. vm_compute. reflexivity. Qed.
+
+(* ---------------------------------------------------------------- the three open gaps
+   Full statements, refutations with concrete witnesses (vm_compute on the
+   model the correspondence suite evaluates), and what holds outside each gap
+   (theorems [..._holds_outside_...] above).  The verdict functions of the
+   witnesses are sound: they depend only on the places the loader reads and
+   accept the old configuration -- the gaps are not an artefact of a bad
+   oracle. *)
+
+Definition sound_oracles (valid metrics_ok : disk N -> bool) (d : disk N) : Prop :=
+  (forall a b, (forall p, covered p = true -> lookup p a = lookup p b) -> valid a = valid b) /\
+  (forall a b, (forall p, covered p = true -> lookup p a = lookup p b) -> metrics_ok a = metrics_ok b) /\
+  valid d = true /\ metrics_ok d = true.
+
+Notation runN := (run N N (fun c => c) N.eqb 0 999 flat).
+
+(* F-C08h.  Clause 1a without the single-failure restriction: whatever goes
+   wrong, the disk is what it was. *)
+Definition C08_disk_atomic_full : Prop :=
+  forall (valid metrics_ok : disk N -> bool) hs hint rq d f r s',
+    sound_oracles valid metrics_ok d ->
+    runN valid metrics_ok true true hs hint rq d f = (r, s') ->
+    r <> Ok -> forall p, lookup p (dsk s') = lookup p d.
+
+(* /apply_flows whose new flow f3 does not validate, and a fault at primitive
+   step 20, inside Restore (the invalid f3 has been removed, the first file is
+   being written back): f1 and q1 are lost, the flows and quotas directories
+   stay empty *)
+Theorem C08_disk_atomic_full_refuted : ~ C08_disk_atomic_full.
+Proof.
+  intro H.
+  specialize (H (c_valid [30]) (c_metrics_ok []) [] [] (ex_request HApplyFlows) ex_disk (AtStep 20)).
+  remember (runN (c_valid [30]) (c_metrics_ok []) true true [] [] (ex_request HApplyFlows) ex_disk (AtStep 20)) as x eqn:E.
+  vm_compute in E. destruct x as [r s]. injection E as -> ->.
+  assert (S : sound_oracles (c_valid [30]) (c_metrics_ok []) ex_disk).
+  { split; [apply c_valid_covered|]. split; [apply c_metrics_ok_covered|]. split; vm_compute; reflexivity. }
+  specialize (H _ _ S eq_refl).
+  assert (X : RollbackFailed <> Ok) by discriminate.
+  specialize (H X ex_f1). vm_compute in H. discriminate.
+Qed.
+Print Assumptions C08_disk_atomic_full_refuted.
+
+Example C08_disk_after_the_failed_rollback :
+  let '(r, s) := ex_run (c_valid [30]) HApplyFlows (AtStep 20) in
+  (result_code r, normalize (dsk s)) = (2, [((AMetricsDefault, 0), 77)]).
+Proof. vm_compute. reflexivity. Qed.
+
+(* F-C08i.  Clause 1b in full: after a rejected update every transaction,
+   whenever it arrived, was served by the old configuration. *)
+Definition C08_flows_as_before_full : Prop :=
+  forall (valid metrics_ok : disk N -> bool) hs hint rq d f s',
+    sound_oracles valid metrics_ok d ->
+    runN valid metrics_ok true true hs hint rq d f = (Failed, s') ->
+    Forall (built_from d) (arrivals s').
+
+Definition ex_bad_metrics_request : request N :=
+  {| r_handler := HConfiguration; r_method_ok := true; r_body_ok := true;
+     r_payload := [ex_entry FFlows ex_f1 11; ex_entry FMetrics metrics_file 66] |}.
+
+Definition serves_f1 (c : N) (e : engine N) : bool :=
+  match e with
+  | EBuilt cfg => match lookup ex_f1 cfg with Some c' => N.eqb c c' | None => false end
+  | EEmpty => false
+  end.
+
+(* a payload whose metrics configuration does not load: the new engine is
+   published, the metrics reload fails, the roll-back publishes the old
+   configuration again -- in between a transaction is served flow f1 = 11 of
+   the rejected payload *)
+Theorem C08_flows_as_before_full_refuted : ~ C08_flows_as_before_full.
+Proof.
+  intro H.
+  specialize (H (fun _ => true) (c_metrics_ok [66]) [] [] ex_bad_metrics_request ex_disk NoFault).
+  remember (runN (fun _ => true) (c_metrics_ok [66]) true true [] [] ex_bad_metrics_request ex_disk NoFault) as x eqn:E.
+  vm_compute in E. destruct x as [r s]. injection E as -> ->.
+  assert (S : sound_oracles (fun _ => true) (c_metrics_ok [66]) ex_disk).
+  { split; [reflexivity|]. split; [apply c_metrics_ok_covered|]. split; vm_compute; reflexivity. }
+  specialize (H _ S eq_refl).
+  match type of H with
+  | Forall _ ?l => destruct (find (serves_f1 11) l) as [e|] eqn:F; [|vm_compute in F; discriminate]
+  end.
+  apply find_some in F as [Hin He].
+  rewrite Forall_forall in H. destruct (H _ Hin) as (cfg & -> & L).
+  specialize (L ex_f1 eq_refl). cbn [serves_f1] in He. rewrite L in He. vm_compute in He. discriminate.
+Qed.
+Print Assumptions C08_flows_as_before_full_refuted.
+
+(* the boundary of C08_flows_as_before_holds_outside_failure_after_switch: a
+   payload that does not validate fails BEFORE the switch -- one publication
+   (the roll-back's reload), every arrival old; the bad-metrics payload fails
+   AFTER it -- two publications, and the arrivals of epoch 1 are the new engine *)
+Example C08_failure_before_and_after_the_switch :
+  (let '(r, s) := ex_run (c_valid [30]) HConfiguration NoFault in
+   (result_code r, ep s, compress (map view_of (rev (arrivals s))))) = (1, 1%nat, [[(1, 10)]]) /\
+  (let '(r, s) := runN (fun _ => true) (c_metrics_ok [66]) true true [] [] ex_bad_metrics_request ex_disk NoFault in
+   (result_code r, ep s,
+    tcompress (map (fun x => (fst x, view_of (snd x))) (timeline s))))
+  = (1, 2%nat, [(0%nat, [(1, 10)]); (1%nat, [(1, 11)]); (2%nat, [(1, 10)])]).
+Proof. split; vm_compute; reflexivity. Qed.
+
+(* F-C08g.  Clause 2b in full: every transaction, also one whose request and
+   response phases lie on different sides of the switch, is handled entirely
+   by the old or entirely by the new configuration. *)
+Definition C08_in_flight_full : Prop :=
+  forall (valid metrics_ok : disk N -> bool) hs hint rq d f r s',
+    sound_oracles valid metrics_ok d ->
+    runN valid metrics_ok true true hs hint rq d f = (r, s') ->
+    r <> RollbackFailed ->
+    exists k, let new := new_disk N true (skipn k hs) rq d in
+      Forall (fun t => handled_entirely_by_one d new (snd (fst t)) (snd (snd t))) (transactions s').
+
+(* a plain successful /configuration update, no fault: the transaction whose
+   request arrived before the update and whose response arrived after it had
+   its request phase handled by f1 = 10 and its response phase by f1 = 11 *)
+Theorem C08_in_flight_full_refuted : ~ C08_in_flight_full.
+Proof.
+  intro H.
+  specialize (H (fun _ => true) (c_metrics_ok []) [] [] (ex_request HConfiguration) ex_disk NoFault).
+  remember (runN (fun _ => true) (c_metrics_ok []) true true [] [] (ex_request HConfiguration) ex_disk NoFault) as x eqn:E.
+  vm_compute in E. destruct x as [r s]. injection E as -> ->.
+  assert (S : sound_oracles (fun _ => true) (c_metrics_ok []) ex_disk).
+  { split; [reflexivity|]. split; [apply c_metrics_ok_covered|]. split; vm_compute; reflexivity. }
+  assert (X : Ok <> RollbackFailed) by discriminate.
+  destruct (H _ _ S eq_refl X) as [k Hk]. clear H. cbn zeta in Hk. rewrite skipn_nil in Hk.
+  unfold transactions in Hk.
+  match type of Hk with Forall _ (spans ?tl) => remember tl as l eqn:El end.
+  vm_compute in El. subst l.
+  match type of Hk with Forall _ (spans (?x :: ?l)) => pose proof (In_spans_hd_last l x) as Hin end.
+  rewrite Forall_forall in Hk. apply Hk in Hin. clear Hk.
+  cbn [last fst snd] in Hin.
+  destruct Hin as [[_ (cfg & E & L)]|[(cfg & E & L) _]]; injection E as <-;
+    specialize (L ex_f1 eq_refl); vm_compute in L; discriminate.
+Qed.
+Print Assumptions C08_in_flight_full_refuted.
+
+(* the same update, counted: 19 arrival points, 190 (request, response) pairs,
+   of which 70 have the publication between their two phases; the other 120
+   fall under C08_in_flight_holds_outside_switch_between_phases *)
+Example C08_transactions_of_a_successful_update :
+  let '(r, s) := ex_run (fun _ => true) HConfiguration NoFault in
+  (result_code r, length (timeline s), length (transactions s),
+   length (filter (fun t => negb (Nat.eqb (fst (fst t)) (fst (snd t)))) (transactions s)),
+   model_spans s)
+  = (0, 19%nat, 190%nat, 70%nat,
+     [(false, [(1, 10)], [(1, 10)]); (true, [(1, 10)], [(3, 30); (1, 11)]);
+      (false, [(3, 30); (1, 11)], [(3, 30); (1, 11)])]).
+Proof. vm_compute. reflexivity. Qed.
+
+(* ---------------------------------------------------------------- why Restore removes strays first
+   (defect F-C08j, repaired by patches/C08/fix-F-C08j.patch).  For the code that
+   writes the backed-up files back BEFORE removing the files of the rejected
+   payload ([run ... true false]) a single failure is enough to make the
+   roll-back fail: /apply_flows on a disk with quotas/sub/q3.yaml, payload
+   quota named "sub" (CleanAll has emptied the directory, os.Remove drops it,
+   a regular file "sub" takes its place) and a flow that does not validate;
+   Restore cannot write sub/q3.yaml back while the file "sub" is in the way. *)
+
+(* quotas/sub (token 7) is the directory of quotas/sub/q3.yaml (token 8) *)
+Definition ex_sub : path := (AQuotas, 7).
+Definition ex_sub_q3 : path := (AQuotas, 8).
+Definition ex_under (p q : path) : bool := path_eqb p ex_sub && path_eqb q ex_sub_q3.
+Definition ex_disk_sub : disk N := [(ex_f1, 10); (ex_sub_q3, 50)].
+Definition ex_request_sub : request N :=
+  {| r_handler := HApplyFlows; r_method_ok := true; r_body_ok := true;
+     r_payload := [ex_entry FQuotas ex_sub 51; ex_entry FFlows ex_f3 30] |}.
+
+(* the hypothesis [tree] of C08_rollback_fails_only_after_two_failures is met
+   by a disk with a sub-directory *)
+Example ex_disk_sub_tree : tree ex_under ex_disk_sub.
+Proof.
+  intros p q Hp Hq. unfold ex_under. destruct (path_eqb p ex_sub) eqn:E; [|reflexivity].
+  apply path_eqb_eq in E. subst p. exfalso. apply Hp. vm_compute. reflexivity.
+Qed.
+
+Definition C08_single_failure_is_rolled_back_writing_first : Prop :=
+  forall (under : path -> path -> bool) (valid metrics_ok : disk N -> bool) hs hint rq d f s',
+    sound_oracles valid metrics_ok d -> tree under d ->
+    run N N (fun c => c) N.eqb 0 999 under valid metrics_ok true false hs hint rq d f = (RollbackFailed, s') ->
+    f <> NoFault.
+
+Theorem C08_restore_writing_first_refuted : ~ C08_single_failure_is_rolled_back_writing_first.
+Proof.
+  intro H.
+  specialize (H ex_under (c_valid [30]) (c_metrics_ok []) [] [] ex_request_sub ex_disk_sub NoFault).
+  remember (run N N (fun c => c) N.eqb 0 999 ex_under (c_valid [30]) (c_metrics_ok []) true false [] []
+                ex_request_sub ex_disk_sub NoFault) as x eqn:E.
+  vm_compute in E. destruct x as [r s]. injection E as -> ->.
+  assert (S : sound_oracles (c_valid [30]) (c_metrics_ok []) ex_disk_sub).
+  { split; [apply c_valid_covered|]. split; [apply c_metrics_ok_covered|]. split; vm_compute; reflexivity. }
+  exact (H _ S ex_disk_sub_tree eq_refl eq_refl).
+Qed.
+Print Assumptions C08_restore_writing_first_refuted.
+
+(* the same request: strays first -> [Failed], every file back; writing first
+   -> [RollbackFailed] without any fault, q3 lost, "sub" and the invalid f3 left *)
+Example C08_type_conflict_is_rolled_back :
+  map (fun sf => let '(r, s) := run N N (fun c => c) N.eqb 0 999 ex_under (c_valid [30]) (c_metrics_ok []) true sf [] []
+                                    ex_request_sub ex_disk_sub NoFault in
+                 (result_code r, normalize (dsk s)))
+      [true; false]
+  = [(1, [(ex_sub_q3, 50); (ex_f1, 10)]); (2, [(ex_f1, 10); (ex_sub, 51); (ex_f3, 30)])].
+Proof. vm_compute. reflexivity. Qed.
+
+(* a name that is a directory holding files cannot be saved (/configuration:
+   nothing was cleaned): os.Create fails, the update fails and is rolled back;
+   [type_conflict] is what C08_rollback_fails_only_after_two_failures calls a
+   payload that is bad by itself *)
+Example C08_type_conflict_blocks_the_save :
+  let rq := {| r_handler := HConfiguration; r_method_ok := true; r_body_ok := true;
+               r_payload := [ex_entry FQuotas ex_sub 51] |} in
+  let '(r, s) := run N N (fun c => c) N.eqb 0 999 ex_under (fun _ => true) (c_metrics_ok []) true true [] []
+                     rq ex_disk_sub NoFault in
+  (result_code r, disk_eqb (dsk s) ex_disk_sub, type_conflict ex_under (r_payload rq) ex_disk_sub)
+  = (1, true, true).
+Proof. vm_compute. reflexivity. Qed.
+
+(* ---------------------------------------------------------------- the suite's oracles
+   C08_rollback_fails_only_after_two_failures instantiated with the verdict
+   functions the correspondence suite runs the model with: its hypotheses
+   about the verdicts (they depend only on the places the loader reads) are
+   met by them. *)
+Corollary C08_rollback_fails_only_after_two_failures_in_the_suite :
+  forall pairs bad badm hs hint rq d f s',
+    tree (c_under pairs) d ->
+    c_valid bad d = true -> c_metrics_ok badm d = true ->
+    run N N (fun c => c) N.eqb 0 0 (c_under pairs) (c_valid bad) (c_metrics_ok badm) true true hs hint rq d f
+    = (RollbackFailed, s') ->
+    f <> NoFault /\
+    exists k, let new := new_disk N true (skipn k hs) rq d in
+              names_escape (r_payload rq) = true \/ type_conflict (c_under pairs) (r_payload rq) d = true \/
+              c_valid bad new = false \/ c_metrics_ok badm new = false.
+Proof.
+  intros pairs bad badm hs hint rq d f s' T Vd Md R.
+  apply (C08_rollback_fails_only_after_two_failures N N (fun c => c) N.eqb 0 0 (c_under pairs)
+           (c_valid bad) (c_metrics_ok badm) N.eqb_eq hs hint rq d f s').
+  - intros a b _ _ E. exact E.
+  - apply c_valid_covered.
+  - apply c_metrics_ok_covered.
+  - exact Vd.
+  - exact Md.
+  - exact T.
+  - exact R.
+Qed.
+Print Assumptions C08_rollback_fails_only_after_two_failures_in_the_suite.
